@@ -220,6 +220,7 @@ def analyse(F, b, params):
     inserts = calls_in(b, lambda t: on_vis(t, 'insert'))
     K.n_contains, K.n_insert = len(conts), len(inserts)
     K.notvis = None
+    K.vis_true = None
     K.insert_is_test = False
     K.contains_key = K.insert_key = None
     if len(inserts) != 1:
@@ -234,6 +235,7 @@ def analyse(F, b, params):
         K.contains_key = pv.of_operand(ct['args'][1])
         te, fe = cfg.bool_edges(ct['dst']['l'], ct['target'])
         K.notvis = fe
+        K.vis_true = te
         if fe is None:
             K.missing.append('CONTAINS-branch')
     elif len(conts) == 0 and len(inserts) == 1:
@@ -242,6 +244,7 @@ def analyse(F, b, params):
         te, fe = cfg.bool_edges(itt['dst']['l'], itt['target'])
         if te is not None:
             K.notvis = te
+            K.vis_true = fe
             K.sites['CONTAINS'] = ibi
             K.contains_key = K.insert_key
             K.notes.append('visited test by insert() result')
